@@ -127,7 +127,8 @@ theorem RoomC.arrive {s : CBelt} (h : RoomC s) (p : MProc) : RoomC (s.arrive p) 
       obtain ⟨a, b⟩ := h
       constructor
       · exact a
-      · simp only [level] at b ⊢; omega
+      · show s.putRes.length + ((s.items.erase e).length + s.ready.length) ≤ s.cfg.cap
+        simp only [level] at b; omega
 
 theorem RoomC.startPhase {s : CBelt} (h : RoomC s) (p : MProc) (ph rem : Nat) : RoomC (s.startPhase p ph rem) := by
   unfold CBelt.startPhase
